@@ -18,8 +18,8 @@ theorem captionCommand_evst {s : St} (h : Inv s) (c1 c2 : Nat) (f2 : Bool) (hq :
     EvSt s (captionCommand s c1 c2 f2) := by
   unfold silentCmd cmdChan at hq
   unfold captionCommand
-  have hchan := chan_lt s.currChan c1 f2
-  generalize (s.currChan &&& 4) + (if f2 then 2 else 0) + ((c1 >>> 3) &&& 1) = chan at hchan hq ⊢
+  have hchan := chan_lt (s.curr f2) c1 f2
+  generalize (s.curr f2 &&& 4) + (if f2 then 2 else 0) + ((c1 >>> 3) &&& 1) = chan at hchan hq ⊢
   have hc9 : chan < 9 := by omega
   have h3 := and3_lt chan
   have h4 := or4_lt hchan
@@ -68,15 +68,15 @@ theorem not_silent_of_repairs (h1 : ruEraseRaisesEvent = true) (h2 : crPopOnNoUp
   rw [h1, h2]
   simp
 
-theorem silentCmd_congr {s s' : St} (hc : s'.chans = s.chans) (hcur : s'.currChan = s.currChan) (c1 c2 : Nat) (f2 : Bool) :
+theorem silentCmd_congr {s s' : St} (hc : s'.chans = s.chans) (hcur : s'.curr f2 = s.curr f2) (c1 c2 : Nat) :
     silentCmd s' c1 c2 f2 ↔ silentCmd s c1 c2 f2 := by
   unfold silentCmd cmdChan; rw [hc, hcur]
 
 theorem decodeMain_evst {s : St} (h : Inv s) (f : Bool) (b0 b1 : Nat)
     (hq : ¬ silentCmd s (b0 &&& 0x7F) (b1 &&& 0x7F) f) : EvSt s (decodeMain s f b0 b1) := by
   unfold decodeMain
-  have hi := text_idx_lt s.currChan f
-  generalize (s.currChan &&& 5) + (if f then 2 else 0) = i at hi ⊢
+  have hi := text_idx_lt (s.curr f) f
+  generalize (s.curr f &&& 5) + (if f then 2 else 0) = i at hi ⊢
   simp only []
   by_cases hbad : (Hamm.unpar8 b0).isNone = true
   · simp only [hbad, if_true, show ¬(1 ≤ 127 ∧ 127 ≤ 0x0F) by decide, show ¬(0x10 ≤ 127 ∧ 127 ≤ 0x1F) by decide,
@@ -101,9 +101,10 @@ theorem decodePair_evst {s : St} (h : Inv s) (f : Bool) (b0 b1 : Nat)
   split
   · exact (EvSt.refl s).congr (xdsConsumed_chans s f b0)
   · rename_i s' hs
-    obtain ⟨he, hc, _, _, hcur⟩ := xdsGate_some hs
+    obtain ⟨he, hc, _, _, _⟩ := xdsGate_some hs
+    have hcur := xdsGate_some_curr hs f
     have h' : Inv s' := h.congr he hc
-    have := decodeMain_evst h' f b0 b1 (fun hs' => hq ((silentCmd_congr hc hcur _ _ _).1 hs'))
+    have := decodeMain_evst h' f b0 b1 (fun hs' => hq ((silentCmd_congr hc hcur _ _).1 hs'))
     unfold EvSt at this ⊢
     rw [hc] at this
     exact this
